@@ -182,6 +182,11 @@ class QOracle:
   def on_call_exception(self, qi, op, x, exc):
     pass
 
+  def knob_is_variable(self, qi, q):
+    """Whether a trace of q taken now would follow later updates."""
+    tf = tf_setup()
+    return isinstance(getattr(q, "qnoise_factor", None), tf.Variable)
+
   def __init__(self, ctx, world, scn):
     self.ctx = ctx
     self.w = world
@@ -362,7 +367,7 @@ def apply_op(ctx, w, oracle, op, extra=None):
       guard(ctx, "%s|update_qnoise_factor" % w.specs[qi]["cls"], apply_qnoise,
             q, op["f"], op["as"])
       ctx.fault("qnoise_update_" + op["as"])
-      if not isinstance(q.qnoise_factor, tf.Variable):
+      if not oracle.knob_is_variable(qi, q):
         # a trace taken while the knob is a python float captured a constant
         # (TensorFlow semantics, not qkeras): drop it rather than judge it
         w.traced.pop(qi, None)
